@@ -115,7 +115,7 @@ STACKS = ["sim", "mem", "frag/sim", "frag/mem", "mbapp/sim", "mbapp/mem",
           "frag/frag/sim", "mbapp/frag/mem", "mux-varint/mux-string/sim"]
 
 PROPS["C01"] = {
-    "tierb": {"legs": ["quic/mem"], "runs": {"quick": 48, "thorough": 700}, "budget": {"quick": 150, "thorough": 700}},
+    "tierb": {"legs": ["quic/mem", "udp", "ssh", "p2pke/udp", "quic/udp"], "runs": {"quick": 80, "thorough": 1500}, "budget": {"quick": 240, "thorough": 700}},
     "pkg": "stk", "env": {"SIM_PROP": "C01"}, "legs": STACKS,
     "runs": {"quick": 2700, "thorough": 200000}, "budget": {"quick": 200, "thorough": 700},
     "rule": "one run = one seed = one stack of the catalogue (27 stacks: every swarm implementation except QUIC/SSH/UDP and nestings up to depth 4, over the simulated network and over the real in-memory swarm) on 2-4 nodes with 1-3 concurrent senders and receivers per node, ledger payloads of boundary-biased lengths 0..MTU, random IOVec splits, buffers poisoned after Tell; network drop/duplicate/reorder (corruption only beneath P2PKE) and all task interleavings drawn from the seed; "
@@ -127,7 +127,7 @@ PROPS["C01"] = {
 }
 
 PROPS["C09"] = {
-    "tierb": {"legs": ["quic/mem"], "runs": {"quick": 48, "thorough": 700}, "budget": {"quick": 150, "thorough": 700}},
+    "tierb": {"legs": ["quic/mem", "udp", "ssh", "p2pke/udp", "quic/udp"], "runs": {"quick": 80, "thorough": 1500}, "budget": {"quick": 240, "thorough": 700}},
     "pkg": "stk", "env": {"SIM_PROP": "C09"}, "legs": STACKS,
     "runs": {"quick": 2700, "thorough": 150000}, "budget": {"quick": 200, "thorough": 700},
     "rule": "one run = one stack of the catalogue on two nodes over a fault-free network with ample queues, per-run inner MTU (32..1280, small ones forcing up to 255 fragments), logical MTU, worker count and multiplexer channel id (empty/short/130-byte strings, 0, small and maximal integers); 3-8 Tell/Ask operations, one at a time, with lengths 0, 1, MTU-1, MTU, MTU+1, MTU+k and each layer's fragment-size boundaries; "
@@ -142,7 +142,7 @@ ASK_STACKS = ["mem", "mbapp/sim", "mbapp/mem", "askmux-string/mem", "askmux-vari
               "multi/mbapp/mem+mbapp/sim", "wl/mbapp/sim", "wl/mem", "mbapp/p2pke/sim", "mbapp/frag/mem"]
 
 PROPS["C11"] = {
-    "tierb": {"legs": ["quic/mem"], "runs": {"quick": 48, "thorough": 700}, "budget": {"quick": 150, "thorough": 700}},
+    "tierb": {"legs": ["quic/mem", "ssh", "quic/udp"], "runs": {"quick": 48, "thorough": 900}, "budget": {"quick": 240, "thorough": 700}},
     "pkg": "stk", "env": {"SIM_PROP": "C11"}, "legs": ASK_STACKS,
     "runs": {"quick": 2000, "thorough": 150000}, "budget": {"quick": 200, "thorough": 700},
     "rule": "one run = one ask-capable stack (10 stacks: in-memory, message-box over simulated network / in-memory / fragmenting / P2PKE, ask-multiplexers, multi-transport, whitelisted) on 2-4 nodes with 1-4 concurrent askers and 1-3 servers per node; unique requests, handlers produce a unique response per (request, server, invocation); negative returns, too-small buffers, response sizes around buffer size and MTU, context deadlines 2 s..3 min of simulated time, a destination closed at a random step; loss/duplication/reordering of request and multi-part response datagrams; "
@@ -154,7 +154,7 @@ PROPS["C11"] = {
 }
 
 PROPS["C12"] = {
-    "tierb": {"legs": ["quic/mem"], "runs": {"quick": 48, "thorough": 700}, "budget": {"quick": 150, "thorough": 700}},
+    "tierb": {"legs": ["quic/mem", "udp", "ssh", "p2pke/udp", "quic/udp"], "runs": {"quick": 80, "thorough": 1500}, "budget": {"quick": 240, "thorough": 700}},
     "pkg": "stk", "env": {"SIM_PROP": "C12"}, "legs": [x for x in STACKS if x != "sim"],
     "runs": {"quick": 8000, "thorough": 300000}, "budget": {"quick": 240, "thorough": 700},
     "rule": "one run = one stack of the catalogue (26 stacks) on 2-4 nodes: 0-3 tasks blocked in Receive and 0-3 in ServeAsk of a victim node with contexts that never expire, optional tells/asks in flight towards it, 1-2 closer tasks (sometimes closing twice, sometimes concurrently) at a seeded step, then new Receive/ServeAsk calls on the closed swarm; finally every node is closed; network faults and all task interleavings from the seed; "
@@ -193,6 +193,7 @@ ADDR_STACKS = STACKS + ["mapudp/sim", "mapssh/sim", "p2pke/mapudp/sim", "frag/p2
                         "mapudp/sim", "mapssh/sim", "p2pke/mapudp/sim",
                         "p2pke/mapssh/sim", "p2pke/p2pke/sim", "frag/p2pke/mapssh/sim", "multi/mem+p2pke/mapssh/sim"]
 PROPS["C16"] = {
+    "tierb": {"legs": ["udp", "udp6", "ssh", "quic/udp", "p2pke/udp", "quic/mem"], "runs": {"quick": 96, "thorough": 1800}, "budget": {"quick": 240, "thorough": 700}},
     "pkg": "stk", "env": {"SIM_PROP": "C16"}, "legs": ADDR_STACKS,
     "runs": {"quick": 1900, "thorough": 100000}, "budget": {"quick": 200, "thorough": 700},
     "rule": "one run = one stack (the 27 catalogue stacks plus 8 whose addresses have the UDP form ip:port and the SSH form fingerprint@ip:port, produced by the address-mapping swarm with udpswarm's and sshswarm's own address types and parsers, alone and nested under P2PKE, fragmenting, multiplexing and multi-transport swarms); per-run hosts are IPv4, IPv6 and IPv4-mapped IPv6 with ports 1..65535, keys and hence fingerprints/peer ids come from the seed; "
@@ -232,7 +233,7 @@ PROPS["C05"] = {
 }
 
 PROPS["C04"] = {
-    "tierb": {"legs": ["quic/mem"], "runs": {"quick": 48, "thorough": 700}, "budget": {"quick": 150, "thorough": 700}},
+    "tierb": {"legs": ["quic/mem", "quic/udp", "p2pke/udp"], "runs": {"quick": 48, "thorough": 900}, "budget": {"quick": 240, "thorough": 700}},
     "pkg": "stk", "env": {"SIM_PROP": "C04"},
     "legs": ["p2pke/sim", "p2pke/mem", "frag/p2pke/sim", "mbapp/p2pke/sim", "mux-string/frag/p2pke/sim", "wl/mbapp/p2pke/sim", "p2pke/mapudp/sim", "p2pke/sim", "wl/mem", "wl/mbapp/mem"],
     "runs": {"quick": 1600, "thorough": 100000}, "budget": {"quick": 240, "thorough": 700},
@@ -273,20 +274,20 @@ PROPS["C14"] = {
     "assumptions": ["QUIC and SSH swarms are not exercised"],
 }
 
-TIERB_RULE = (" Tier B leg quic/mem (own batch, one run per process, 48 quick / 1500 thorough runs): the QUIC swarm (real quic-go, TLS 1.3 with the node keys; "
-              "its timer wrapper patched in a scratch copy of the module, see DESIGN.md 12.8) over the real in-memory swarm on 2-3 nodes, real clock, no scheduler: a seeded SEQUENTIAL workload of 6-19 operations "
-              "(Tell / Ask of sizes 0, small, MTU/2, MTU-1, MTU, MTU+1..40; negative handler results; too-small buffers; Tell to another identity at a node's transport address; LookupPublicKey; Close of one node followed by Receive/ServeAsk on it) "
-              "with per-run whitelist and seeded datagram loss in a third of the runs; data-only oracles of this property (content, attribution and key lookup in the handler, whitelist, size refusals with a control message, answer identity, calls after Close); "
+TIERB_RULE = (" Tier B legs (own batch, one run per process, 16 quick / 300 thorough runs per leg; which legs: see coverage.legs): quic/mem = the QUIC swarm (real quic-go, TLS 1.3 with the node keys; "
+              "its timer wrapper patched in a scratch copy of the module, see DESIGN.md 12.8) over the real in-memory swarm; udp, ssh = the UDP and SSH swarms on real loopback sockets; p2pke/udp, quic/udp = P2PKE and QUIC over the UDP swarm; 2-3 nodes, real clock, no scheduler: a seeded workload of 6-19 operations issued one at a time "
+              "(Tell / Ask of sizes 0, small, MTU/2, MTU-1, MTU, MTU+1..40; bursts of 2-3 overlapping asks with lingering handlers; negative handler results; too-small buffers; Tell to another identity at a node's transport address; LookupPublicKey; Close of one node followed by Receive/ServeAsk on it) "
+              "with per-run whitelist (QUIC, P2PKE) and seeded datagram loss in a third of the in-memory runs; data-only oracles of this property (content, attribution and key lookup in the handler, whitelist, size refusals with a control message, answer identity, calls after Close); "
               "what replays is the application-level history, not the packet trace")
 for _p in PROPS.values():
     if _p.get("tierb"):
         _p["rule"] = _p["rule"] + ";" + TIERB_RULE
         _c = dict(_p["components"])
-        _c["real"] = list(_c.get("real", [])) + ["Tier B leg: s/quicswarm, p/p2pconn, quic-go v0.37.4 (one function patched), crypto/tls, s/memswarm + s/vswarm"]
-        _c["stub"] = list(_c.get("stub", [])) + ["Tier B leg: crypto/rand (seeded), datagram loss (seeded, keyed by link and ordinal); scheduling and clock are REAL"]
-        _c["tier"] = str(_c.get("tier", "A")) + "; leg quic/mem: B (outcome-deterministic)"
+        _c["real"] = list(_c.get("real", [])) + ["Tier B legs: s/quicswarm, p/p2pconn, quic-go v0.37.4 (one function patched), crypto/tls, s/memswarm + s/vswarm, s/udpswarm and s/sshswarm on loopback sockets, x/crypto/ssh, s/p2pkeswarm"]
+        _c["stub"] = list(_c.get("stub", [])) + ["Tier B legs: crypto/rand (seeded), datagram loss on the in-memory swarm (seeded, keyed by link and ordinal); scheduling, clock and loopback sockets are REAL"]
+        _c["tier"] = str(_c.get("tier", "A")) + "; Tier B legs: B (outcome-deterministic)"
         _p["components"] = _c
-        _p["assumptions"] = [a for a in _p.get("assumptions", []) if "QUIC" not in a] + ["SSH and UDP-socket swarms are not exercised; the QUIC swarm only in the Tier B leg"]
+        _p["assumptions"] = [a for a in _p.get("assumptions", []) if "QUIC" not in a] + ["the QUIC, SSH and UDP-socket swarms are exercised by the Tier B legs only (real clock, real loopback sockets, sequential workload)"]
 
 NOT_APPLICABLE = {
     "C17": "pure functions of their input (key/peer-id marshal, parse, equality, fingerprint): no schedule, clock, fault or second party for a simulator to vary; see DESIGN.md §7",
